@@ -755,7 +755,7 @@ func targetCount(st *mstate, s *stmt) int {
 // orders do not explain the engine's outcome.
 func exhaustive(sc *schema, st *mstate, checks bool, s *stmt, want string) *outcome {
 	n := targetCount(st, s)
-	if n < 3 || n > 7 {
+	if n < 3 || n > 8 {
 		return nil
 	}
 	perm := make([]int, n)
